@@ -199,8 +199,28 @@ class Sim:
             # get_known_values must not have written NaN into the live table
             if not _same(g.get_upper_bounds(), ups):
                 res.fail(f"getter-mutates :: {w}: get_known_values() changed the table")
-            # list-valued getters on a drawn coalition list
+            # list-valued getters on a drawn coalition list, also handed over as one-shot iterables (the declared type is
+            # Iterable[Coalition]; the package itself passes map objects)
             if probe:
+                for mk in (lambda: iter(repo.coals(probe)), lambda: (c for c in repo.coals(probe)), lambda: map(repo.coal, probe)):
+                    if [bool(x) for x in g.are_values_known(mk())] != [known[s] for s in probe]:
+                        res.fail(f"are_values_known(iterator) :: {w} {probe}")
+                    if not _same(g.get_lower_bounds(mk()), [lows[s] for s in probe]) or not _same(g.get_upper_bounds(mk()), [ups[s] for s in probe]):
+                        res.fail(f"get_bounds(iterator) :: {w} {probe}")
+                    kvi = np.asarray(g.get_known_values(mk()))
+                    if len(kvi) != len(probe) or any(known[s] != (not math.isnan(kvi[j])) or (known[s] and not _feq(kvi[j], lows[s])) for j, s in enumerate(probe)):
+                        res.fail(f"get_known_values(iterator) :: {w} {probe}: {kvi.tolist()}")
+                    if all(known[s] for s in probe):
+                        if not _same(g.get_values(mk()), [lows[s] for s in probe]):
+                            res.fail(f"get_values(iterator) :: {w} {probe}")
+                    else:
+                        try:
+                            val = g.get_values(mk())
+                            res.fail(f"unknown-value-returned :: {w}: get_values(<one-shot iterable of {probe}>) returned {list(map(float, val))} although some are unknown")
+                        except ValueError:
+                            pass
+                    if res.failures:
+                        return
                 cl = repo.coals(probe)
                 if [bool(x) for x in g.are_values_known(cl)] != [known[s] for s in probe]:
                     res.fail(f"are_values_known(list) :: {w} {probe}")
